@@ -379,3 +379,6 @@ _run_c06 = run
 def run(ctx):
     _run_c06(ctx)
     ctx.guard(r06_2b)
+    # the value for an interval must not depend on earlier queries: no in-place update of tensors the tree may hold
+    from . import c05
+    ctx.guard(c05.r05_5)
